@@ -58,6 +58,36 @@ func c19SafeOptions(t *rapid.T) {
 			}
 		}
 	}
+	if rapid.IntRange(0, 29).Draw(t, "concurrentReaders") == 17 {
+		// several readers of the masked options at once (parallel /conf requests, /conf during the start-up echo)
+		var wg sync.WaitGroup
+		leak := make(chan string, 8)
+		for g := 0; g < 4; g++ {
+			wg.Add(1)
+			go func() {
+				defer wg.Done()
+				for i := 0; i < 1500; i++ {
+					sp := conf.GetSafeOptions()
+					for name, p := range map[string]string{"source.password_raw": o.SourcePasswordRaw, "source.password_encoding": o.SourcePasswordEncoding, "target.password_raw": o.TargetPasswordRaw, "target.password_encoding": o.TargetPasswordEncoding} {
+						if p != "" && (sp.SourcePasswordRaw == p || sp.SourcePasswordEncoding == p || sp.TargetPasswordRaw == p || sp.TargetPasswordEncoding == p) {
+							select {
+							case leak <- name:
+							default:
+							}
+							return
+						}
+					}
+				}
+			}()
+		}
+		wg.Wait()
+		select {
+		case name := <-leak:
+			violation(t, "C19", "safe-options-leak:concurrent:"+name, "GetSafeOptions() called from 4 goroutines at once returned a copy that still holds %s", name)
+			return
+		default:
+		}
+	}
 	if safe.SourcePasswordRaw == o.SourcePasswordRaw && o.SourcePasswordRaw != "" || safe.TargetPasswordRaw == o.TargetPasswordRaw && o.TargetPasswordRaw != "" {
 		violation(t, "C19", "safe-options-unmasked", "password fields are not masked: %+v", safe)
 		return
@@ -287,6 +317,7 @@ var c19mu sync.Mutex
 
 func TestC19(t *testing.T) {
 	t.Run("safe-options", func(t *testing.T) { rapid.Check(t, c19SafeOptions) })
+	t.Run("node-format", func(t *testing.T) { rapid.Check(t, c19NodeFormat) })
 }
 
 func TestC19Paths(t *testing.T) { rapid.Check(t, c19Path) }
